@@ -31,6 +31,7 @@ func init() {
 				return &fw.Case{Meta: map[string]string{"fixed": "chain"}, Docs: []run.Doc{{}}}
 			}, Eval: c10Eval},
 			{Name: "hostile-blocks", N: constN(1500, 50000), Gen: c10GenHostile, Eval: c10EvalHostile},
+			{Name: "reference-chains", N: constN(600, 20000), Gen: c10GenChains, Eval: c10EvalHostile},
 		},
 		Floors: map[string]int64{"permutations_compared": 8000, "hostile_permutations_compared": 5000},
 	})
@@ -308,6 +309,41 @@ func c10GenHostile(r *xrand.Rand, idx int, tier string) *fw.Case {
 			blocks = append(blocks, "GET /p/{"+pick("a", "b", "a")+"}/"+pick("x", "y", "x")+"\n  200 any\n")
 		default:
 			blocks = append(blocks, pick("TAG @"+pick("a", "b"), "TYPE @"+pick("a", "b")+" any", "SERVER @"+pick("a", "b")+"\n  BaseUrl \"https://"+pick("a", "b")+"/\"", "ENUM @"+pick("a", "b")+"\n[1]")+"\n")
+		}
+	}
+	return &fw.Case{Meta: map[string]string{"blocks": strings.Join(blocks, "\x00")}, Docs: []run.Doc{{}}}
+}
+
+// c10GenChains: a chain of user types that are nothing but references to the next one (TYPE @a / @b), ending in an
+// object, and one or two blocks that use the head of the chain where an object is asked for (Headers, the body of a
+// Path or Query directive, JSON-RPC Params, an allOf base) or a body: the links, the end and the users in every order.
+func c10GenChains(r *xrand.Rand, idx int, tier string) *fw.Case {
+	n := r.Range(1, 3) // links before the object
+	var blocks []string
+	for i := 0; i < n; i++ {
+		blocks = append(blocks, fmt.Sprintf("TYPE @link%d\n  @link%d\n", i, i+1))
+	}
+	blocks = append(blocks, fmt.Sprintf("TYPE @link%d\n  {\n    \"id\": 1,\n    \"X-Token\": \"t\" // {optional: true}\n  }\n", n))
+	users := []string{
+		"POST /u1\n  Request\n    Headers\n      @link0\n    Body any\n  200 any\n",
+		"GET /u2\n  200\n    Headers\n      @link0\n    Body any\n",
+		"GET /u3/{id}\n  Path\n    @link0\n  200 any\n",
+		"GET /u4\n  Query\n    @link0\n  200 any\n",
+		"URL /u5\n  Protocol json-rpc-2.0\n  Method m\n    Params\n      @link0\n    Result\n      [@link0]\n",
+		"GET /u6\n  200 @link0\nPOST /u6\n  Request @link1\n  201 [@link0]\n",
+		"TYPE @heir\n  { // {allOf: \"@link" + fmt.Sprint(n) + "\"}\n    \"own\": 1\n  }\nGET /u7\n  200 @heir\n",
+		"GET /u8\n  200\n    {\n      \"a\": @link0,\n      \"b\": @link1 | @link0\n    }\n",
+	}
+	for k := r.Range(1, 2); k > 0; k-- {
+		u := users[r.Intn(len(users))]
+		dup := false
+		for _, b := range blocks {
+			if b == u {
+				dup = true
+			}
+		}
+		if !dup {
+			blocks = append(blocks, u)
 		}
 	}
 	return &fw.Case{Meta: map[string]string{"blocks": strings.Join(blocks, "\x00")}, Docs: []run.Doc{{}}}
